@@ -121,26 +121,35 @@ def run(tier, seed):
         jobs["fresh_" + f] = {"base": base, "settings": sets, "build_with": f, "history": [G]}
     for n, h in enumerate(hs):
         jobs["h%03d" % n] = {"base": base, "settings": sets, "build_with": "A", "history": h}
+    # the same mesh with one per-leg target spacing explicitly None (the orthogonal reference spacing of that leg then falls back to the
+    # NON-orthogonal target option, see DESIGN 11.26): its own references, its own histories
+    base_n = json.loads(json.dumps(base))
+    base_n["options"]["target_inner_lower_poloidal_spacing_length"] = None
+    for f in FRESH:
+        jobs["nfresh_" + f] = {"base": base_n, "settings": sets, "build_with": f, "history": [G]}
+    for n, h in enumerate([[R("B"), G], [R("P"), G], [R("B"), R("A"), G]]):
+        jobs["hnone%d" % n] = {"base": base_n, "settings": sets, "build_with": "A", "history": h}
     results = {n: (jd, st) for n, jd, st in run_jobs(jobs, d)}
-    for n in ["fresh_" + f for f in FRESH]:
+    for n in ["fresh_" + f for f in FRESH] + ["nfresh_" + f for f in FRESH]:
         if not results[n][1].get("dumped"):
             v.fail_machinery("reference build %s failed: %s" % (n, results[n][1]))
             return v
     traces = []
     for n, (jd, st) in sorted(results.items()):
-        if n.startswith("fresh"):
+        if n.startswith(("fresh", "nfresh")):
             continue
+        ref = "nfresh_" if n.startswith("hnone") else "fresh_"
         if st.get("fatal"):
             v.fail_machinery("history %s: %s" % (n, st["fatal"]))
             continue
         ev = [{"ev": "BuildEq", "arg": "", "out": "ok", "exc": ""}] + list(st["events"])
         if st.get("dumped"):
-            cmp = {f: cmp_npz(os.path.join(jd, "final.npz"), os.path.join(results["fresh_" + f][0], "final.npz")) for f in FRESH}
+            cmp = {f: cmp_npz(os.path.join(jd, "final.npz"), os.path.join(results[ref + f][0], "final.npz")) for f in FRESH}
         else:
             cmp = {f: (0, 0) for f in FRESH}
         # the non-orthogonal options the equilibrium object holds at the end are what writeGridfile embeds in the file (hypnotoad_inputs_yaml):
         # they must be those of a mesh built from scratch with the setting in force
-        rec = {f: int(st.get("final_nonorth") == results["fresh_" + f][1].get("final_nonorth")) for f in FRESH}
+        rec = {f: int(st.get("final_nonorth") == results[ref + f][1].get("final_nonorth")) for f in FRESH}
         ev.append({"ev": "Compare", "arg": "", "out": "ok", "exc": "", "dpos": {f: cmp[f][0] for f in FRESH}, "dgeo": {f: cmp[f][1] for f in FRESH},
                    "user_options_unchanged": st.get("user_options_unchanged", 0), "opts_recorded": rec})
         for e in ev:
@@ -173,7 +182,7 @@ def run(tier, seed):
             nref += 1
         for cl in sorted(failed.get(t["id"], ())):
             stale = "stale" if t["events"][-1]["dpos"]["A"] <= 20 and t["events"][-1]["dpos"]["B"] > 20 else "other"
-            v.violation("C15 engine=history clause=%s kind=%s" % (cl, stale),
+            v.violation("C15 engine=history clause=%s kind=%s%s" % (cl, stale, " base=target_none" if t["name"].startswith("hnone") else ""),
                         "history [%s] on a non-orthogonal LSN mesh: clause %s fails (distance to fresh A / fresh B: positions %s quanta of 1e-8 m, geometry %s)"
                         % (hist, cl, t["events"][-1]["dpos"], t["events"][-1]["dgeo"]), {"history": t["history"], "events": t["events"]})
     v.note("histories", {"run": len(traces), "final_geometry_refused": nref, "clauses_failed": sorted({c for s in failed.values() for c in s})})
